@@ -14,7 +14,7 @@ RULE = ("luminance: all 16,777,216 colours (both tiers) against a 50-digit-decim
         "large flag + random ratios; get_wcag_level / is_readable / bulk status on pairs; luminance+ratio contracts also fire on every "
         "candidate the optimiser evaluates in a side workload. Non-trivial = every distinct colour / pair / float judged (none is skipped).")
 ASSUMPTIONS = ["oracle table computed with decimal at 50 digits; WCAG 0.03928 vs sRGB 0.04045 breakpoints select the same branch for all 8-bit values (asserted in self-test)"]
-MUST_OBSERVE = {"any": ["lum_checked", "ratio_checked", "label_checked", "contract:calculate_contrast_ratio", "pair_label_checked"]}
+MUST_OBSERVE = {"any": ["lum_checked", "ratio_checked", "label_checked", "contract:calculate_contrast_ratio", "pair_label_checked", "bulk_status_after_fix_checked"]}
 EXHAUSTIVE = {"quick": ["luminance over all 2^24 colours", "ratio over all 256x256 grey pairs"],
               "thorough": ["luminance over all 2^24 colours", "ratio over all 256x256 grey pairs", "ratio of every colour vs black and vs white"]}
 LUM_TOL = 1e-12
@@ -133,6 +133,7 @@ def work(shard, rec):
         rec.sample({"a": list(a), "b": list(b), "library_ratio": ratio(a, b), "oracle_ratio": wcag.ratio(a, b)})
     elif k == "labels":
         labels(shard, rec, lib, con)
+        bulk_status_after_fixing(shard, rec, lib)
     elif k == "side":
         side(shard, rec, lib, con)
 
@@ -213,6 +214,41 @@ def labels(shard, rec, lib, con):
                 rec.violation(f"label query raised {type(e).__name__}: {e}", case)
 
 
+def bulk_status_after_fixing(shard, rec, lib):
+    """Bulk status label for pairs that need fixing, under every mode / very_readable combination, including fixes that
+    fail: the label must be the WCAG level of the colour that is *returned*, at that text size."""
+    from cmv import pairwork as PW
+    rnd = G.rng("c05bulkfix", shard["seed"])
+    for i in range(shard.get("nfix", 900)):
+        large, vr, mode = bool(i & 1), bool(i & 2), (i // 4) % 3
+        g = G.below(rnd, large, vr, lo=0.3) if i % 3 else G.below(rnd, large, vr, lo=0.8)
+        if not g:
+            continue
+        t, b = g
+        case = {"fn": "bulk_fix", "t": list(t), "b": list(b), "large": large, "vr": vr, "mode": mode}
+        rec.ev()
+        try:
+            col, st = lib.make_readable_bulk([(t, b, large)], mode=mode, very_readable=vr)[0]
+        except Exception as e:
+            rec.violation(f"make_readable_bulk([({t},{b},{large})], mode={mode}, very_readable={vr}) raised {type(e).__name__}: {e}", case)
+            continue
+        rb = PW.readback(col)
+        if rb is None:
+            rec.count("bulk_fix_unreadable(C06)")
+            continue
+        r = wcag.ratio(rb, b)
+        wants = {wcag.LABEL[wcag.level(r, large)]}
+        for th in (3.0, 4.5, 7.0):
+            if abs(r - th) <= wcag.RATIO_BAND * th:
+                wants |= {wcag.LABEL[wcag.level(th, large)], wcag.LABEL[wcag.level(th - 1e-6, large)]}
+        rec.count("bulk_status_after_fix_checked")
+        rec.count("bulk_fix_outcome:" + ("met" if r >= wcag.minimum(large, vr) else "not_met"))
+        rec.nontrivial(("bulkfix", t, b, large, vr, mode))
+        if st not in wants:
+            rec.violation(f"make_readable_bulk([({t},{b},{large})], mode={mode}, very_readable={vr}) -> ({col!r}, {st!r}) but the returned colour's ratio is "
+                          f"{r:.4f} -> {sorted(wants)}", case)
+
+
 def side(shard, rec, lib, con):
     """Contracts on luminance / ratio, live while the optimiser runs."""
     def lum_post(rgb, result):
@@ -271,6 +307,12 @@ def replay(case):
         print(f"get_contrast_level({case['v']!r},{case['large']}): library {got!r} oracle {want!r}")
         return got == want
     t, b = tuple(case["t"]), tuple(case["b"])
+    if case["fn"] == "bulk_fix":
+        from cmv import pairwork as PW
+        col, st = lib.make_readable_bulk([(t, b, case["large"])], mode=case["mode"], very_readable=case["vr"])[0]
+        r = wcag.ratio(PW.readback(col), b)
+        print(f"bulk -> ({col!r}, {st!r}); returned colour's ratio {r:.4f} -> {wcag.LABEL[wcag.level(r, case['large'])]!r}")
+        return st == wcag.LABEL[wcag.level(r, case["large"])]
     r = wcag.ratio(t, b)
     print(f"pair {t} on {b} large={case['large']}: oracle ratio {r}, level {wcag.level(r, case['large'])}; "
           f"library get_wcag_level {con.get_wcag_level(t, b, case['large'])}, is_readable {lib.ColorPair(t, b, large_text=case['large']).is_readable}")
